@@ -82,6 +82,11 @@ def check(ctx):
     _check_routes(ctx, repo)
     _check_shutdown(ctx, repo)
     _check_ws(ctx, repo)
+    # the handler wrapper (dynamic re-resolution): shared with C09 - at most one dispatch per call, call-time lookup
+    ctx.rule("C09-R2", "shared with C09: arity guard dominates every dispatch of the re-resolving wrapper")
+    ctx.rule("C09-R3", "shared with C09: the wrapper resolves its symbol at call time and dispatches at most once per call, even if the handler raises")
+    from . import c09
+    c09._r2_r3(ctx, repo)
 
 
 def _check_routes(ctx, repo):
